@@ -262,7 +262,7 @@ func TestC13ExitRace(t *testing.T) {
 	}
 	shard, _ := vstat.Shard()
 	for _, idleUs := range vstat.Pick([]int{300}, []int{200, 300, 1000}) {
-		c := ExitRaceCase{IdleUs: idleUs + 13*shard, Attempts: vstat.Pick(4000, 30000), SpanUs: 150}
+		c := ExitRaceCase{IdleUs: idleUs + 13*shard, Attempts: vstat.Pick(4000, 8000), SpanUs: 150}
 		after, v := RunExitRace(c)
 		if v != nil && timeBound[v.Sig] {
 			_, v2 := RunExitRace(c)
